@@ -24,8 +24,13 @@ def stress_jobs(rng, n):
             jobs.append(dict(sym="dm", content=list(C02.recipe(rng, rng.randrange(3), rng.choice([2, 9, 30, 80, 150, 250]))), p=[]))
         elif r < 0.65:
             jobs.append(dict(sym="aztec", content=[rng.choice(b"abcXYZ 012.,\x80") for _ in range(rng.choice([0, 3, 20, 80]))], p=[rng.choice([0, 23, 50]), rng.choice([0, 0, -2, 4])]))
-        elif r < 0.75:
+        elif r < 0.70:
             jobs.append(dict(sym="pdf", content=[rng.choice(b"abcXYZ 0123456789;\x80") for _ in range(rng.choice([0, 5, 40, 150]))], p=[rng.randrange(9)]))
+        elif r < 0.75:       # the three compaction modes in long runs: numeric (13+ digits), byte, text
+            kind = rng.randrange(3)
+            n = rng.choice([13, 20, 44, 45, 90, 150])
+            c = [rng.choice(b"0123456789") for _ in range(n)] if kind == 0 else ([rng.randrange(128, 256) for _ in range(n)] if kind == 1 else [rng.choice(b"abc def") for _ in range(n)])
+            jobs.append(dict(sym="pdf", content=list(b"ID ") * rng.randint(0, 1) + c, p=[rng.randrange(9)]))
         elif r < 0.8:
             jobs.append(dict(sym="qr", content=list(b"NOT ALNUM lower"), p=[1, 2]))      # early error return of the alphanumeric pipeline
         else:
@@ -60,6 +65,7 @@ def coldstart_classes(rng):
         ("dm-sizes", [dict(sym="dm", content=list(C02.recipe(rng, 1, n)), p=[]) for n in (3, 44, 204, 456, 1050, 1558)]),  # single-block .. ten-block symbols
         ("qr-versions", [dict(sym="qr", content=list(C01.filler(rng, 4, C01.cap(v, lv, 4) - 1, 1)), p=[lv, 3]) for (v, lv) in ((1, 0), (7, 1), (14, 2), (27, 3), (40, 0))]),
         ("pdf-levels", [dict(sym="pdf", content=txt(40 + 10 * lv, b"abc XYZ 0123456789;\x80"), p=[lv]) for lv in range(9)]),
+        ("pdf-numeric-byte", [dict(sym="pdf", content=txt(n, b"0123456789"), p=[2]) for n in (13, 44, 45, 100, 200)] + [dict(sym="pdf", content=txt(n, bytes(range(128, 200))), p=[1]) for n in (6, 12, 13, 60)]),
         ("one-dimensional", [dict(sym=sym, content=onedim.U(c), p=list(p)) for (sym, c, p) in gen.SAMPLES[4:]]),
     ]
 
